@@ -115,7 +115,7 @@ def is_case_start(line):
     if not m:
         return False
     return m.group(1) not in ("ret", "panic", "probe", "equal", "delete", "insert",
-                              "replace", "finish", "step", "drift")
+                              "replace", "finish", "step", "drift", "bcall", "ucall", "bdiff", "urender")
 
 
 def split_trace(path, outdir, max_lines):
